@@ -9,6 +9,7 @@ import (
 	"regexp"
 	"sort"
 	"strings"
+	"sync"
 	"time"
 
 	"verif/symx"
@@ -40,6 +41,8 @@ type Ctx struct {
 	Programs     int
 	knownSeen    map[string]int
 	LoadTime     time.Duration
+	NativeTime   time.Duration
+	ExploreTime  time.Duration
 }
 
 func (c *Ctx) Quick() bool { return c.Tier != "thorough" }
@@ -157,6 +160,9 @@ func (c *Ctx) Process(results []*JobResult, runnerOf func(*Job) *NativeRunner) {
 		if r.Queries.Unknown > 0 {
 			c.inconclusive("%s %s%v: %d solver answers unknown", j.Label, j.Entry, j.Args, r.Queries.Unknown)
 		}
+		if r.Ends["ok"] == 0 && len(r.Violations) == 0 && r.Incomplete == "" {
+			c.inconclusive("%s %s%v: vacuous: no path ran to completion (ends=%v)", j.Label, j.Entry, j.Args, r.Ends)
+		}
 		for _, need := range j.Need {
 			if r.Reached[need] == 0 && len(r.Violations) == 0 {
 				c.inconclusive("%s %s%v: vacuous: witness %q not reached on any path", j.Label, j.Entry, j.Args, need)
@@ -173,7 +179,19 @@ func (c *Ctx) Process(results []*JobResult, runnerOf func(*Job) *NativeRunner) {
 			byRunner[run] = append(byRunner[run], pending{jr: jr, samp: &r.Samples[i]})
 		}
 	}
+	type runOut struct {
+		outs []ReplayOutcome
+		err  error
+	}
+	results2 := map[*NativeRunner]*runOut{}
+	var mu sync.Mutex
+	var wg sync.WaitGroup
+	sem := make(chan struct{}, 16)
+	t0 := time.Now()
 	for run, ps := range byRunner {
+		if run == nil {
+			continue
+		}
 		var cases []ReplayCase
 		for _, p := range ps {
 			rc := ReplayCase{Entry: p.jr.Job.Entry, Args: p.jr.Job.Args}
@@ -184,12 +202,25 @@ func (c *Ctx) Process(results []*JobResult, runnerOf func(*Job) *NativeRunner) {
 			}
 			cases = append(cases, rc)
 		}
+		wg.Add(1)
+		sem <- struct{}{}
+		go func(run *NativeRunner, cases []ReplayCase) {
+			defer wg.Done()
+			defer func() { <-sem }()
+			outs, err := c.runNativeChunked(run, cases)
+			mu.Lock()
+			results2[run] = &runOut{outs, err}
+			mu.Unlock()
+		}(run, cases)
+	}
+	wg.Wait()
+	c.NativeTime += time.Since(t0)
+	for run, ps := range byRunner {
 		var outs []ReplayOutcome
-		var err error
-		if run != nil {
-			outs, err = c.runNativeChunked(run, cases)
-			if err != nil {
-				c.inconclusive("native replay unavailable for %s: %v", run.PkgPath, err)
+		if ro := results2[run]; ro != nil {
+			outs = ro.outs
+			if ro.err != nil {
+				c.inconclusive("native replay unavailable for %s: %v", run.PkgPath, ro.err)
 			}
 		}
 		for i, p := range ps {
@@ -486,6 +517,7 @@ func (c *Ctx) Finish() int {
 	fmt.Printf("%s %s: instances=%d paths=%d decided-branches=%d asserts-discharged=%d queries=%d (sat %d unsat %d unknown %d) validated=%d violations=%d known=%d inconclusive=%d wall=%.1fs solver=%.1fs\n",
 		c.Prop, c.Tier, len(c.Results), paths, decisions, asserts, q.Sat+q.Unsat+q.Unknown, q.Sat, q.Unsat, q.Unknown, c.Validated, nviol, len(ks),
 		len(c.Inconclusive), time.Since(c.Start).Seconds(), solverT.Seconds())
+	fmt.Printf("  time: load+ssa %.1fs, explore %.1fs, native replay/validation %.1fs\n", c.LoadTime.Seconds(), c.ExploreTime.Seconds(), c.NativeTime.Seconds())
 	return exit
 }
 
